@@ -123,6 +123,8 @@ class SimFile:
         if off >= length or n <= 0:
             return b""
         end = min(off + n, length)
+        if end - off > (1 << 30):
+            raise MemoryError(f"simulated storage: a single read of {end - off} bytes")
         out = []
         pos = off
         i = bisect_right(self._starts, off) - 1
@@ -153,7 +155,10 @@ class SimFile:
         buf = b"".join(out)
         if self._ov:
             ba = None
-            for o, lst in self._ov.items():
+            ov = self._ov
+            keys = ov.keys() if len(ov) <= 64 else [o for o in range(off, end) if o in ov] if end - off < len(ov) else ov.keys()
+            for o in keys:
+                lst = ov[o]
                 if off <= o < end:
                     for at_seq, kind, value in lst:
                         if seq >= at_seq:
